@@ -537,3 +537,35 @@ func vBadPairsCoverTable() (int, []string) {
 
 //@ bounded vBadPairsCoverTable all 35x35 pairs of serialization type names against the CSS Syntax 3 §9 table
 //@   props C20
+
+//@ func (stringVal).isError
+//@   props C20
+//@   inline
+//@ func (stringVal).isIdentifier
+//@   props C20
+//@   inline
+
+// the closing quote is written only for a string token that is not flagged as unterminated
+//@ func (String).serializeTo
+//@   props C20
+//@   modifies anything
+//@   requires writer != nil && forall(i, 0, len(t.Value), t.Value[i] != 0)
+//@   call WriteString#1 assert arg1 == "\""
+//@   call WriteString#3 assert arg1 == "\"" && !t.isError()
+
+// the text written is `url(` + the escaped value + `)`, minus the characters the error flags say were missing
+//@ func (URL).serializeTo
+//@   props C20
+//@   modifies anything
+//@   requires writer != nil && forall(i, 0, len(t.Value), t.Value[i] != 0)
+//@   nopanic
+
+//@ func serializeIdentifier
+//@   props C20
+//@   nopanic
+//@   modifies nothing
+//@   requires value != "" && forall(i, 0, len(value), value[i] != 0)
+
+//@ func Serialize
+//@   props C20
+//@   modifies anything
